@@ -61,7 +61,9 @@ func genE2EPipe(t *rapid.T) e2ePipeCase {
 	envs["ipfix"].NoEnterprise = true
 	proto := rapid.SampledFrom(robustProtos).Draw(t, "proto")
 	c := e2ePipeCase{P: genPipeline(t, proto, envs, 250)}
-	c.P.UDPSize = rapid.SampledFrom([]int{1500, 1500, 600, 9000}).Draw(t, "e2eudpsize")
+	if c.P.UDPSize > 9000 {
+		c.P.UDPSize = 9000
+	}
 	used := map[int]bool{}
 	for len(c.Exporters) < len(c.P.Exporters) {
 		n := rapid.OneOf(rapid.Just(0), rapid.IntRange(2, 250)).Draw(t, "expaddr")
@@ -397,6 +399,9 @@ func runC01E2E(c *c01E2ECase) (v verdict, sig string, err error) {
 	n := 0
 	for hi, h := range c.Histories {
 		for _, it := range h.Items {
+			if it.Note == "restart" {
+				continue // restarts of the real process are C15's subject
+			}
 			k := 2 + (hi*3+it.Exp)%200
 			ex := exps[k]
 			if ex == nil {
